@@ -599,3 +599,181 @@ Lemma slack_witness :
   lim_granted slack_opts (mask_addr slack_opts k3_client) 0 333333333 slack_history (lim_decisions slack_opts [] slack_history) * SCALE
     = o_burst slack_opts * SCALE + o_limit slack_opts * (333333333 - 0) + 1.
 Proof. vm_compute. auto. Qed.
+
+(* ------------------------------------------------------------------ the router's configuration mapping *)
+
+Lemma cfg_mask4_range c : 1 <= cfg_mask4 c <= 32.
+Proof. unfold cfg_mask4. destruct ((1 <=? lc_v4 c) && (lc_v4 c <=? 32)) eqn:E; lia. Qed.
+
+Lemma cfg_mask6_range c : 1 <= cfg_mask6 c <= 128.
+Proof. unfold cfg_mask6. destruct ((1 <=? lc_v6 c) && (lc_v6 c <=? 128)) eqn:E; lia. Qed.
+
+(* the effective options of the router's client limiter: rate and burst as configured (burst omitted = rate),
+   the v4 mask from v4_mask, the v6 mask from v6_mask, /24 and /48 when omitted or out of range *)
+Lemma config_opts c : 0 < lc_limit c ->
+  cfg_client c = Some (mkOpts (lc_limit c) (if lc_burst c <=? 0 then lc_limit c else lc_burst c)
+                              (cfg_mask4 c) (cfg_mask6 c)).
+Proof.
+  intros H. unfold cfg_client, init_client, cfg_opts, set_default, cfg_mask4, cfg_mask6. cbn [o_limit o_burst o_v4 o_v6].
+  assert (0 <? lc_limit c = true) as -> by lia.
+  assert (lc_limit c <=? 0 = false) as -> by lia.
+  f_equal. f_equal.
+  - destruct ((lc_v4 c <=? 0) || (32 <? lc_v4 c)) eqn:A; destruct ((1 <=? lc_v4 c) && (lc_v4 c <=? 32)) eqn:B; lia.
+  - destruct ((lc_v6 c <=? 0) || (128 <? lc_v6 c)) eqn:A; destruct ((1 <=? lc_v6 c) && (lc_v6 c <=? 128)) eqn:B; lia.
+Qed.
+
+Lemma config_no_client c : lc_limit c <= 0 -> cfg_client c = None.
+Proof. intros H. unfold cfg_client, init_client, cfg_opts. cbn. assert (0 <? lc_limit c = false) as -> by lia. reflexivity. Qed.
+
+Lemma config_client_default c o : cfg_client c = Some o -> o = set_default (cfg_opts c).
+Proof. unfold cfg_client, init_client. destruct (0 <? o_limit (cfg_opts c)); congruence. Qed.
+
+(* masking with the effective options = truncation to the configured mask of the address's family *)
+Lemma config_mask c o a : o_v4 o = cfg_mask4 c -> o_v6 o = cfg_mask6 c -> mask_addr o a = cfg_subnet c a.
+Proof.
+  intros A B. unfold mask_addr, cfg_subnet. destruct (lim_unmap a) as [x|x|]; auto.
+  - unfold prefix_addr4. rewrite A. pose proof (cfg_mask4_range c).
+    assert ((0 <=? cfg_mask4 c) && (cfg_mask4 c <=? 32) = true) as -> by lia.
+    now rewrite mask_bits_spec.
+  - unfold prefix_addr6. rewrite B. pose proof (cfg_mask6_range c).
+    assert ((0 <=? cfg_mask6 c) && (cfg_mask6 c <=? 128) = true) as -> by lia.
+    now rewrite mask_bits_spec.
+Qed.
+
+Lemma config_key c a : 0 < lc_limit c -> cfg_key c a = Some (cfg_subnet c a).
+Proof.
+  intros H. unfold cfg_key. rewrite (config_opts c H). f_equal. now apply config_mask.
+Qed.
+
+Lemma config_client_mask c o a : cfg_client c = Some o -> mask_addr o a = cfg_subnet c a.
+Proof.
+  intros H. destruct (Z_lt_le_dec 0 (lc_limit c)) as [L|L].
+  - rewrite (config_opts c L) in H. inversion H; subst o. now apply config_mask.
+  - rewrite (config_no_client c L) in H. discriminate.
+Qed.
+
+(* a client's subnet depends on the configured mask of its own family only *)
+Lemma config_subnet_v4 c c' x : lc_v4 c = lc_v4 c' -> cfg_subnet c (LA4 x) = cfg_subnet c' (LA4 x).
+Proof. intros H. unfold cfg_subnet, cfg_mask4. cbn [lim_unmap]. now rewrite H. Qed.
+
+Lemma config_subnet_v6 c c' x : lc_v6 c = lc_v6 c' -> (x / two32 <> 65535)%N ->
+  cfg_subnet c (LA6 x) = cfg_subnet c' (LA6 x).
+Proof.
+  intros H M. unfold cfg_subnet, cfg_mask6. rewrite unmap_spec.
+  assert ((x / two32 =? 65535)%N = false) as -> by (apply N.eqb_neq; exact M). now rewrite H.
+Qed.
+
+Lemma config_subnet_mapped c x : (x < two32)%N -> cfg_subnet c (LA6 (65535 * two32 + x)) = cfg_subnet c (LA4 x).
+Proof.
+  intros H. unfold cfg_subnet. rewrite unmap_spec.
+  assert (((65535 * two32 + x) / two32 =? 65535)%N = true) as ->.
+  { apply N.eqb_eq. unfold two32 in *. lia. }
+  assert (((65535 * two32 + x) mod two32)%N = x) as ->.
+  { unfold two32 in *. lia. }
+  reflexivity.
+Qed.
+
+Lemma trunc_eq (s x y : N) : (x / 2 ^ s * 2 ^ s = y / 2 ^ s * 2 ^ s <-> x / 2 ^ s = y / 2 ^ s)%N.
+Proof.
+  split; intros H; [|now rewrite H].
+  assert (2 ^ s <> 0)%N as P by (apply N.pow_nonzero; discriminate).
+  apply N.mul_cancel_r in H; auto.
+Qed.
+
+(* two clients of one family share a subnet iff they agree on the first <configured mask of that family> bits *)
+Lemma config_same_v4 c x y :
+  cfg_subnet c (LA4 x) = cfg_subnet c (LA4 y) <->
+  (x / 2 ^ (32 - Z.to_N (cfg_mask4 c)) = y / 2 ^ (32 - Z.to_N (cfg_mask4 c)))%N.
+Proof.
+  unfold cfg_subnet. cbn [lim_unmap]. rewrite <- trunc_eq. split; intros H; [now inversion H|now rewrite H].
+Qed.
+
+Lemma config_same_v6 c x y : (x / two32 <> 65535)%N -> (y / two32 <> 65535)%N ->
+  cfg_subnet c (LA6 x) = cfg_subnet c (LA6 y) <->
+  (x / 2 ^ (128 - Z.to_N (cfg_mask6 c)) = y / 2 ^ (128 - Z.to_N (cfg_mask6 c)))%N.
+Proof.
+  intros A B. unfold cfg_subnet. rewrite !unmap_spec.
+  assert ((x / two32 =? 65535)%N = false) as -> by (apply N.eqb_neq; exact A).
+  assert ((y / two32 =? 65535)%N = false) as -> by (apply N.eqb_neq; exact B).
+  rewrite <- trunc_eq. split; intros H; [now inversion H|now rewrite H].
+Qed.
+
+(* ---- the composed system: router.limiterAllowN over the limiter built from a configuration ---- *)
+
+Definition rl_conv (d : option bool) : rl_res := match d with Some false => RlClient | _ => RlOk end.
+
+(* results for key k computed on its own bucket only *)
+Fixpoint rl_kres (o : opts) (k : lim_addr) (s : option bucket) (h : list rl_arrival) : list rl_res :=
+  match h with
+  | [] => []
+  | (now, a, n) :: h' =>
+      if addr_eqb (mask_addr o a) k then
+        match a with
+        | LANone => RlOk :: rl_kres o k s h'
+        | _ => rl_conv (snd (kstep o k s (EvAllow now a n))) :: rl_kres o k (fst (kstep o k s (EvAllow now a n))) h'
+        end
+      else rl_kres o k s h'
+  end.
+
+Lemma rl_results_kres c o k h : (forall a, mask_addr o a = cfg_subnet c a) ->
+  forall t, nodup_keys t ->
+  rl_results_for c k h (rl_decisions (mkRl None (Some (o, t))) h) = rl_kres o k (lim_lookup k t) h.
+Proof.
+  intros M. induction h as [|[[now a] n] h IH]; intros t H; cbn [rl_decisions rl_results_for rl_kres]; auto.
+  rewrite <- M.
+  destruct a as [x|x|].
+  - rewrite rl_allow_client by discriminate. cbn [fst snd].
+    rewrite (IH _ (step_nodup o t _ H)), (step_lookup o k t _ H).
+    destruct (addr_eqb (mask_addr o (LA4 x)) k) eqn:E.
+    + rewrite (step_decision o k t (EvAllow now (LA4 x) n)) by exact E. reflexivity.
+    + rewrite (kstep_untouched o k _ (EvAllow now (LA4 x) n)) by exact E. reflexivity.
+  - rewrite rl_allow_client by discriminate. cbn [fst snd].
+    rewrite (IH _ (step_nodup o t _ H)), (step_lookup o k t _ H).
+    destruct (addr_eqb (mask_addr o (LA6 x)) k) eqn:E.
+    + rewrite (step_decision o k t (EvAllow now (LA6 x) n)) by exact E. reflexivity.
+    + rewrite (kstep_untouched o k _ (EvAllow now (LA6 x) n)) by exact E. reflexivity.
+  - cbn [rl_allow fst snd]. rewrite (IH _ H). reflexivity.
+Qed.
+
+Lemma rl_kres_filter o k h : forall s,
+  rl_kres o k s h = rl_kres o k s (filter (fun e : rl_arrival => addr_eqb (mask_addr o (snd (fst e))) k) h).
+Proof.
+  induction h as [|[[now a] n] h IH]; intros s; cbn [filter rl_kres fst snd]; auto.
+  destruct (addr_eqb (mask_addr o a) k) eqn:E.
+  - cbn [rl_kres]. rewrite E. destruct a; rewrite <- !IH; reflexivity.
+  - apply IH.
+Qed.
+
+Lemma rl_of_config_client c t0 : lc_global c <= 0 -> 0 < lc_limit c ->
+  rl_of_config c t0 = mkRl None (Some (set_default (cfg_opts c), [])).
+Proof.
+  intros G L. unfold rl_of_config, rl_init, init_client, cfg_opts. cbn [o_limit].
+  assert (0 <? lc_global c = false) as -> by lia.
+  assert (0 <? lc_limit c = true) as -> by lia. reflexivity.
+Qed.
+
+(* isolation for the router's limiter as configured (no global limit): what the clients of subnet k are told
+   depends only on the arrivals from subnet k, subnets being the property's (configured mask of the family) *)
+Lemma config_isolation c k t0 h : lc_global c <= 0 -> 0 < lc_limit c ->
+  rl_results_for c k h (rl_decisions (rl_of_config c t0) h) =
+  rl_results_for c k (filter (rl_from_subnet c k) h) (rl_decisions (rl_of_config c t0) (filter (rl_from_subnet c k) h)).
+Proof.
+  intros G L. rewrite (rl_of_config_client c t0 G L).
+  assert (forall a, mask_addr (set_default (cfg_opts c)) a = cfg_subnet c a) as M.
+  { intros a. apply config_client_mask. unfold cfg_client, init_client, cfg_opts. cbn [o_limit].
+    assert (0 <? lc_limit c = true) as -> by lia. reflexivity. }
+  rewrite !(rl_results_kres c _ k _ M) by apply nodup_nil.
+  rewrite rl_kres_filter.
+  f_equal. apply filter_ext. intros [[now a] n]. unfold rl_from_subnet. cbn [fst snd]. now rewrite M.
+Qed.
+
+(* the window bound for the limiter as configured *)
+Lemma config_bound c o k t0 t1 h : cfg_client c = Some o ->
+  lim_sorted h = true -> (has_gc h = true -> o_burst o <= 60 * o_limit o) -> t0 <= t1 ->
+  lim_granted o k t0 t1 h (lim_decisions o [] h) * SCALE
+    <= o_burst o * SCALE + o_limit o * (t1 - t0) + (o_limit o - 1).
+Proof.
+  intros C S G T. apply config_client_default in C. subst o.
+  pose proof (default_wf (cfg_opts c)) as W. cbn zeta in W.
+  apply bound_general; auto; lia.
+Qed.
